@@ -102,7 +102,11 @@ def validate(ck, sessions, part, maxsteps=40000, batch=1500, with_trace=True):
     ck.part(part, programs=len(progs), agree_with_semantics=agree, traces_followed_to_the_end=followed)
     ck.cov["traces_validated_against_impl"] += followed
     if with_trace:
-        selftest(ck, [p for p in progs if "trace" in p and p["id"] not in div], part, maxsteps)
+        # only programs the intended VM followed to the end of every statement (after an Unspecified statement the rest of a
+        # session is not examined, so a corrupted event there would go unnoticed for a reason that is not the binding's)
+        clean = [p for p in progs if "trace" in p and p["id"] not in div and vm.get(p["id"]) is not None and len(vm[p["id"]]) == len(p["entries"])
+                 and all(("val" in o or "err" in o) for o in vm[p["id"]])]
+        selftest(ck, clean, part, maxsteps)
     return len(progs), agree, viol
 
 
